@@ -145,6 +145,11 @@ func cmdCheck(args []string) int {
 					mine++
 				}
 			}
+			if mine == 0 && (rep.Panic != "" || len(rep.SpecErrs) > 0) && w.fnConcerns(fn, *prop) {
+				// the function could not be verified at all (its contract no longer binds, or the engine failed on
+				// it): that must not make it disappear from the check of the properties it serves
+				mine = 1
+			}
 			if mine == 0 {
 				continue
 			}
@@ -567,4 +572,44 @@ func rawLemmaObligations(prop string) []*Obligation {
 		out = append(out, &Obligation{Name: "lemma.smt:" + strings.TrimSuffix(filepath.Base(f), ".smt2"), Kind: "contract", Tags: []string{prop}, Fn: "lemma", RawSMT: string(b)})
 	}
 	return out
+}
+
+// fnConcerns: does the function serve the property (a clause of its contract or an autotag names it)?
+func (w *World) fnConcerns(fn *ssa.Function, prop string) bool {
+	has := func(ts []string) bool {
+		for _, t := range ts {
+			if t == prop {
+				return true
+			}
+		}
+		return false
+	}
+	if con := w.contractFor(fn); con != nil {
+		for _, cs := range [][]*Clause{con.Requires, con.Ensures, con.AbsEnsure, con.EnvAssume, con.Captures} {
+			for _, c := range cs {
+				if has(c.Tags) {
+					return true
+				}
+			}
+		}
+		for _, lc := range con.Loops {
+			for _, c := range lc.Invs {
+				if has(c.Tags) {
+					return true
+				}
+			}
+		}
+		for _, cs := range con.CallSites {
+			if has(cs.C.Tags) {
+				return true
+			}
+		}
+	}
+	e := newEngine(w, fn)
+	for _, kind := range []string{"nopanic", "lock", "term", "race", "reach", "contract"} {
+		if has(e.autoTags(kind, fn)) {
+			return true
+		}
+	}
+	return false
 }
